@@ -22,6 +22,7 @@ import os
 
 MAX_CALLEE_BLOCKS = 400
 MAX_ROUNDS = 6
+LOWER_NEXT = True
 CONVERTERS = ("read_err", "write_err", "invalid_err", "internal_err", "context", "with_context")
 
 
@@ -153,11 +154,11 @@ COMBINATORS = {
 VIDX = {(RESULT, "Ok"): 0, (RESULT, "Err"): 1, (OPTION, "None"): 0, (OPTION, "Some"): 1}
 
 
-def _closure_def(blocks, op):
-    """def path of the closure (or fn item) an operand denotes"""
+def _closure_def(blocks, op, hops=0):
+    """def path of the closure (or fn item) an operand denotes (through moves of the closure value)"""
     if op.get("k") == "const" and "fn" in op:
         return ("fn", op.get("fn_resolved") or op["fn"])
-    if op.get("k") not in ("copy", "move") or op["place"]["proj"]:
+    if op.get("k") not in ("copy", "move") or op["place"]["proj"] or hops > 6:
         return None
     n = op["place"]["local"]
     found = None
@@ -167,8 +168,14 @@ def _closure_def(blocks, op):
         for st in b["stmts"]:
             if st["place"]["local"] == n:
                 rv = st["rv"]
-                if not st["place"]["proj"] and rv["k"] == "aggregate" and rv["kind"].get("agg") == "closure" and found is None:
+                if st["place"]["proj"] or found is not None:
+                    return None
+                if rv["k"] == "aggregate" and rv["kind"].get("agg") == "closure":
                     found = ("closure", rv["kind"]["def"])
+                elif rv["k"] == "use" and rv["op"].get("k") in ("copy", "move", "const"):
+                    found = _closure_def(blocks, rv["op"], hops + 1)
+                    if found is None:
+                        return None
                 else:
                     return None
         t = b["term"]
@@ -478,6 +485,264 @@ def thread_known_discriminants(prog, d, max_new=400):
     return changed
 
 
+LAZY_ADAPTERS = ("map", "filter", "filter_map", "from_fn", "inspect")
+
+
+def _def_sites(blocks, n):
+    """(block index, kind, payload) of every whole definition of local n outside cleanup blocks"""
+    out = []
+    for bi, b in enumerate(blocks):
+        if b["cleanup"]:
+            continue
+        for st in b["stmts"]:
+            if st["place"]["local"] == n and not st["place"]["proj"]:
+                out.append((bi, "stmt", st))
+        t = b["term"]
+        if t["k"] == "call" and t["dest"]["local"] == n and not t["dest"]["proj"]:
+            out.append((bi, "call", t))
+    return out
+
+
+def lower_lazy_next(prog, d, max_sites=40):
+    """`it.next()` on an iterator that was built as `inner.map(f)`, `inner.filter(p)`, `inner.filter_map(f)`,
+    `inner.inspect(f)` or `iter::from_fn(g)` with a closure / fn item is rewritten into what it does:
+
+        map:        match inner.next() { None => None, Some(v) => Some(f(v)) }
+        filter:     loop { match inner.next() { None => break None, Some(v) => if p(&v) { break Some(v) } } }
+        filter_map: loop { match inner.next() { None => break None, Some(v) => if let Some(w) = f(v) { break Some(w) } } }
+        from_fn:    g()
+
+    with direct calls of the closures (which the inliner then splices in), so an explicit loop over an adapter chain and
+    an explicit loop with the closure bodies written out look the same to the rules.  The inner iterator and the closure
+    are kept in fresh locals at the place where the adapter is built.  Semantics preserving."""
+    blocks, locs = d["blocks"], d["locals"]
+    changed = False
+    sites = 0
+    for bi in range(len(blocks)):
+        b = blocks[bi]
+        if b["cleanup"] or b.get("next_lowered") or sites >= max_sites:
+            continue
+        t = b["term"]
+        if t["k"] != "call" or t["target"] < 0 or len(t["args"]) != 1 or t["dest"]["proj"]:
+            continue
+        c = _callee(t)
+        if not c.endswith("::next") or c in prog.fns:
+            continue
+        # the iterator local behind `&mut it` (through reborrows and moves)
+        op = t["args"][0]
+        it = None
+        for _ in range(8):
+            if op.get("k") not in ("copy", "move") or any(e["k"] != "deref" for e in op["place"]["proj"]):
+                break
+            n = op["place"]["local"]
+            ds = _def_sites(blocks, n)
+            if len(ds) != 1:
+                break
+            kind, payload = ds[0][1], ds[0][2]
+            if kind == "call":
+                it = (n, ds[0][0], payload)
+                break
+            rv = payload["rv"]
+            if rv["k"] == "ref" and not [e for e in rv["place"]["proj"] if e["k"] != "deref"]:
+                op = {"k": "copy", "place": {"local": rv["place"]["local"], "proj": []}}
+            elif rv["k"] == "use":
+                op = rv["op"]
+            else:
+                break
+        if it is None:
+            continue
+        it_local, cb, ct = it
+        cc = _callee(ct)
+        ad = cc.rsplit("::", 1)[-1]
+        if ad not in LAZY_ADAPTERS or not ("Iterator" in cc or "iter::" in cc):
+            continue
+        want = 1 if ad == "from_fn" else 2
+        if len(ct["args"]) != want:
+            continue
+        fop = ct["args"][-1]
+        fdef = _closure_def(blocks, fop)
+        if fdef is None or fdef[1] not in prog.fns:
+            continue
+        line = t.get("span", {}).get("l0", 0)
+        span = t.get("span", {"file": "", "l0": line, "l1": line, "exp": False})
+
+        def new_local(ty, name=""):
+            locs.append({"ty": ty, "name": name})
+            return len(locs) - 1
+
+        def new_block(term=None):
+            blocks.append({"cleanup": False, "stmts": [], "term": term or {"k": "goto", "target": t["target"]}, "expanded": "next:" + ad})
+            return len(blocks) - 1
+
+        def mv(n):
+            return {"k": "move", "place": {"local": n, "proj": []}}
+
+        def cp(n):
+            return {"k": "copy", "place": {"local": n, "proj": []}}
+        # keep the closure (and the inner iterator) where the adapter is built; once per adapter
+        keep = blocks[cb].setdefault("kept_for_lowering", {})
+        if "f" not in keep:
+            kf = new_local("?", "kept_fn")
+            blocks[cb]["stmts"].append({"place": {"local": kf, "proj": []}, "rv": {"k": "use", "op": fop}, "line": line})
+            ct["args"][-1] = cp(kf)
+            keep["f"] = kf
+            if ad != "from_fn":
+                ki = new_local(locs[ct["args"][0]["place"]["local"]]["ty"] if ct["args"][0].get("k") in ("copy", "move") and not ct["args"][0]["place"]["proj"] else "?", "kept_iter")
+                blocks[cb]["stmts"].append({"place": {"local": ki, "proj": []}, "rv": {"k": "use", "op": ct["args"][0]}, "line": line})
+                ct["args"][0] = cp(ki)
+                keep["i"] = ki
+        kf, ki = keep["f"], keep.get("i")
+        dest, target = t["dest"], t["target"]
+        is_closure = fdef[0] == "closure"
+
+        def call_closure(blk, args_ops, dest_local, nxt):
+            if is_closure:
+                tup = new_local("(?,)")
+                blocks[blk]["stmts"].append({"place": {"local": tup, "proj": []}, "rv": {"k": "aggregate", "kind": {"agg": "tuple"}, "ops": args_ops}, "line": line})
+                cargs = [cp(kf), mv(tup)]
+            else:
+                cargs = args_ops
+            blocks[blk]["term"] = {"k": "call", "callee": {"path": fdef[1], "resolved": fdef[1], "is_resolved": True, "local": True, "crate": "", "args": []},
+                                   "args": cargs, "dest": {"local": dest_local, "proj": []}, "target": nxt, "span": span}
+
+        def agg(var, ops):
+            return {"k": "aggregate", "kind": {"agg": "adt", "adt": OPTION, "variant": var, "vidx": VIDX[(OPTION, var)], "fields": ["0"] if ops else []}, "ops": ops}
+        b["next_lowered"] = True
+        if ad == "from_fn":
+            # x = g()
+            call_closure(bi, [], dest["local"], target)
+            sites += 1
+            changed = True
+            continue
+        # head: y = inner.next()
+        y = new_local("std::option::Option<?>")
+        r = new_local("&mut ?")
+        head, mid, some_b, none_b = bi, new_block(), new_block(), new_block()
+        b["stmts"].append({"place": {"local": r, "proj": []}, "rv": {"k": "ref", "place": {"local": ki, "proj": []}, "mut": True}, "line": line})
+        inner_ty = locs[ki]["ty"]
+        nxt = "<I as std::iter::Iterator>::next"
+        nxt_local = False
+        for q, g2 in prog.fns.items():
+            if g2.trait and q.endswith("::next") and inner_ty and g2.self_ty.split("<")[0] == inner_ty.lstrip("&").replace("mut ", "").split("<")[0]:
+                nxt, nxt_local = q, True
+        if not nxt_local and inner_ty not in ("?", ""):
+            nxt = "<%s as std::iter::Iterator>::next" % (inner_ty.lstrip("&").replace("mut ", ""))
+        b["term"] = {"k": "call", "callee": {"path": nxt, "resolved": nxt, "is_resolved": True, "local": nxt_local, "crate": "" if nxt_local else "core", "args": [inner_ty] if inner_ty else []},
+                     "args": [mv(r)], "dest": {"local": y, "proj": []}, "target": mid, "span": span}
+        b["next_lowered"] = False          # the inner next() may itself be an adapter
+        dl = new_local("isize")
+        blocks[mid]["stmts"].append({"place": {"local": dl, "proj": []}, "rv": {"k": "discr", "place": {"local": y, "proj": []}}, "line": line})
+        dead = new_block({"k": "unreachable"})
+        blocks[mid]["term"] = {"k": "switch", "discr": mv(dl), "targets": [["0", none_b], ["1", some_b]], "otherwise": dead, "span": span}
+        blocks[none_b]["stmts"].append({"place": dest, "rv": agg("None", []), "line": line})
+        v = new_local("?", "item")
+        pay = {"local": y, "proj": [{"k": "downcast", "variant": "Some", "vidx": 1}, {"k": "field", "idx": 0, "name": "0", "adt": OPTION, "ty": "?"}]}
+        blocks[some_b]["stmts"].append({"place": {"local": v, "proj": []}, "rv": {"k": "use", "op": {"k": "move", "place": pay}}, "line": line})
+        res = new_local("?", "mapped")
+        after = new_block()
+        if ad == "map":
+            call_closure(some_b, [mv(v)], res, after)
+            blocks[after]["stmts"].append({"place": dest, "rv": agg("Some", [mv(res)]), "line": line})
+        elif ad == "inspect":
+            rv_ = new_local("&?")
+            blocks[some_b]["stmts"].append({"place": {"local": rv_, "proj": []}, "rv": {"k": "ref", "place": {"local": v, "proj": []}, "mut": False}, "line": line})
+            call_closure(some_b, [mv(rv_)], res, after)
+            blocks[after]["stmts"].append({"place": dest, "rv": agg("Some", [mv(v)]), "line": line})
+        elif ad == "filter":
+            rv_ = new_local("&?")
+            blocks[some_b]["stmts"].append({"place": {"local": rv_, "proj": []}, "rv": {"k": "ref", "place": {"local": v, "proj": []}, "mut": False}, "line": line})
+            call_closure(some_b, [mv(rv_)], res, after)
+            keep_b = new_block()
+            blocks[keep_b]["stmts"].append({"place": dest, "rv": agg("Some", [mv(v)]), "line": line})
+            blocks[after]["term"] = {"k": "switch", "discr": mv(res), "targets": [["0", head]], "otherwise": keep_b, "span": span}
+        elif ad == "filter_map":
+            call_closure(some_b, [mv(v)], res, after)
+            d2 = new_local("isize")
+            blocks[after]["stmts"].append({"place": {"local": d2, "proj": []}, "rv": {"k": "discr", "place": {"local": res, "proj": []}}, "line": line})
+            keep_b = new_block()
+            w = {"local": res, "proj": [{"k": "downcast", "variant": "Some", "vidx": 1}, {"k": "field", "idx": 0, "name": "0", "adt": OPTION, "ty": "?"}]}
+            blocks[keep_b]["stmts"].append({"place": dest, "rv": agg("Some", [{"k": "move", "place": w}]), "line": line})
+            dead2 = new_block({"k": "unreachable"})
+            blocks[after]["term"] = {"k": "switch", "discr": mv(d2), "targets": [["0", head], ["1", keep_b]], "otherwise": dead2, "span": span}
+        sites += 1
+        changed = True
+    return changed
+
+
+def expand_extend(prog, d):
+    """`v.extend(chain)` where chain is a lazy adapter with a closure (map / filter / filter_map / from_fn) is the loop
+    `for x in chain { v.push(x) }` (push_back for a VecDeque); next() of the chain is then lowered by lower_lazy_next"""
+    blocks, locs = d["blocks"], d["locals"]
+    changed = False
+    for bi in range(len(blocks)):
+        b = blocks[bi]
+        if b["cleanup"] or b.get("consumer_expanded"):
+            continue
+        t = b["term"]
+        if t["k"] != "call" or t["target"] < 0 or len(t["args"]) != 2:
+            continue
+        c = _callee(t)
+        if not c.endswith("::extend") or "Extend" not in c:
+            continue
+        if "VecDeque" in c:
+            push = "std::collections::VecDeque::<T, A>::push_back"
+        elif "vec::Vec" in c:
+            push = "std::vec::Vec::<T, A>::push"
+        else:
+            continue
+        it_op = t["args"][1]
+        if it_op.get("k") not in ("copy", "move") or it_op["place"]["proj"]:
+            continue
+        ds = _def_sites(blocks, it_op["place"]["local"])
+        if len(ds) != 1 or ds[0][1] != "call":
+            continue
+        cc = _callee(ds[0][2])
+        if cc.rsplit("::", 1)[-1] not in LAZY_ADAPTERS or _closure_def(blocks, ds[0][2]["args"][-1]) is None:
+            continue
+        line = t.get("span", {}).get("l0", 0)
+        span = t.get("span", {"file": "", "l0": line, "l1": line, "exp": False})
+        dest, target = t["dest"], t["target"]
+
+        def new_local(ty, name=""):
+            locs.append({"ty": ty, "name": name})
+            return len(locs) - 1
+
+        def new_block(term=None):
+            blocks.append({"cleanup": False, "stmts": [], "term": term or {"k": "goto", "target": target}, "expanded": "consumer:extend"})
+            return len(blocks) - 1
+
+        def mv(n):
+            return {"k": "move", "place": {"local": n, "proj": []}}
+        coll = new_local("?", "coll")
+        it = new_local(locs[it_op["place"]["local"]]["ty"], "iter")
+        b["stmts"].append({"place": {"local": coll, "proj": []}, "rv": {"k": "use", "op": t["args"][0]}, "line": line})
+        b["stmts"].append({"place": {"local": it, "proj": []}, "rv": {"k": "use", "op": it_op}, "line": line})
+        head, mid, body, exit_b = new_block(), new_block(), new_block(), new_block()
+        b["term"] = {"k": "goto", "target": head}
+        b["consumer_expanded"] = True
+        x = new_local("std::option::Option<?>")
+        r = new_local("&mut ?")
+        blocks[head]["stmts"].append({"place": {"local": r, "proj": []}, "rv": {"k": "ref", "place": {"local": it, "proj": []}, "mut": True}, "line": line})
+        nxt = "<%s as std::iter::Iterator>::next" % locs[it]["ty"]
+        blocks[head]["term"] = {"k": "call", "callee": {"path": nxt, "resolved": nxt, "is_resolved": True, "local": False, "crate": "core", "args": []},
+                                "args": [mv(r)], "dest": {"local": x, "proj": []}, "target": mid, "span": span}
+        dl = new_local("isize")
+        blocks[mid]["stmts"].append({"place": {"local": dl, "proj": []}, "rv": {"k": "discr", "place": {"local": x, "proj": []}}, "line": line})
+        dead = new_block({"k": "unreachable"})
+        blocks[mid]["term"] = {"k": "switch", "discr": mv(dl), "targets": [["0", exit_b], ["1", body]], "otherwise": dead, "span": span}
+        v = new_local("?", "item")
+        blocks[body]["stmts"].append({"place": {"local": v, "proj": []}, "rv": {"k": "use", "op": {"k": "move", "place": {"local": x, "proj": [
+            {"k": "downcast", "variant": "Some", "vidx": 1}, {"k": "field", "idx": 0, "name": "0", "adt": OPTION, "ty": "?"}]}}}, "line": line})
+        cr = new_local("&mut ?")
+        blocks[body]["stmts"].append({"place": {"local": cr, "proj": []}, "rv": {"k": "use", "op": {"k": "copy", "place": {"local": coll, "proj": []}}}, "line": line})
+        unit = new_local("()")
+        blocks[body]["term"] = {"k": "call", "callee": {"path": push, "resolved": push, "is_resolved": True, "local": False, "crate": "alloc", "args": []},
+                                "args": [mv(cr), mv(v)], "dest": {"local": unit, "proj": []}, "target": head, "span": span}
+        blocks[exit_b]["stmts"].append({"place": dest, "rv": {"k": "use", "op": {"k": "const", "ty": "()", "dbg": "()"}}, "line": line})
+        changed = True
+    return changed
+
+
 CONSUMERS = ("for_each", "try_for_each", "fold", "try_fold")
 
 
@@ -754,6 +1019,112 @@ class Inliner:
     def run(self):
         from mirlib import Fn
         self._recursive = self._find_recursive()
+        for _outer in range(3):
+            self._rounds()
+            if not self._devirtualise_closure_params():
+                break
+        self._finish()
+        return self
+
+    def _devirtualise_closure_params(self):
+        """`f(a, b)` on a generic parameter `f: impl FnOnce(A, B) -> R` is `FnOnce::call_once(f, (a, b))` in MIR.  After
+        the helper that takes f was inlined, f is a local that holds one closure (or fn item): call that directly."""
+        from mirlib import Fn
+        any_change = False
+        for p in sorted(self.prog.fns):
+            f = self.prog.fns[p]
+            todo = []
+            for bi, b in enumerate(f.blocks):
+                t = b["term"]
+                if b["cleanup"] or t["k"] != "call" or len(t["args"]) != 2:
+                    continue
+                c = _callee(t)
+                if c not in ("std::ops::FnOnce::call_once", "std::ops::FnMut::call_mut", "std::ops::Fn::call", "core::ops::function::FnOnce::call_once",
+                             "core::ops::function::FnMut::call_mut", "core::ops::function::Fn::call"):
+                    continue
+                op = t["args"][0]
+                target = None
+                for _ in range(8):
+                    if op.get("k") == "const" and "fn" in op:
+                        target = ("fn", op.get("fn_resolved") or op["fn"])
+                        break
+                    if op.get("k") not in ("copy", "move") or any(e["k"] != "deref" for e in op["place"]["proj"]):
+                        break
+                    ds = f.whole_defs(op["place"]["local"])
+                    if len(ds) != 1 or ds[0][0] != "stmt":
+                        break
+                    rv = ds[0][1]
+                    if rv["k"] == "aggregate" and rv["kind"].get("agg") == "closure":
+                        target = ("closure", rv["kind"]["def"])
+                        break
+                    src_pl = rv["op"]["place"] if rv["k"] == "use" and rv["op"].get("k") in ("copy", "move") else (rv["place"] if rv["k"] == "ref" else None)
+                    fl = [e for e in src_pl["proj"] if e["k"] != "deref"] if src_pl is not None else []
+                    if len(fl) == 1 and fl[0]["k"] == "field" and str(fl[0].get("adt", "")).startswith("closure:"):
+                        # a captured callable: slot of the closure aggregate the environment was built as
+                        env, found = src_pl["local"], None
+                        for _ in range(6):
+                            de = f.whole_defs(env)
+                            if len(de) != 1 or de[0][0] != "stmt":
+                                break
+                            rve = de[0][1]
+                            if rve["k"] == "use" and rve["op"].get("k") in ("copy", "move") and not rve["op"]["place"]["proj"]:
+                                env = rve["op"]["place"]["local"]
+                                continue
+                            if rve["k"] == "ref" and not [e for e in rve["place"]["proj"] if e["k"] != "deref"]:
+                                env = rve["place"]["local"]
+                                continue
+                            if rve["k"] == "aggregate" and rve["kind"].get("agg") == "closure" and fl[0]["idx"] < len(rve["ops"]):
+                                found = rve["ops"][fl[0]["idx"]]
+                            break
+                        if found is None:
+                            break
+                        op = found
+                        continue
+                    if rv["k"] == "use":
+                        op = rv["op"]
+                    elif rv["k"] == "ref" and not [e for e in rv["place"]["proj"] if e["k"] != "deref"]:
+                        op = {"k": "copy", "place": {"local": rv["place"]["local"], "proj": []}}
+                    elif rv["k"] == "cast":
+                        op = rv["a"]
+                    else:
+                        break
+                if target is None:
+                    continue
+                if target[1] not in self.prog.fns and not (target[0] == "fn" and _variant_ctor(self.prog, target) is not None):
+                    continue
+                todo.append((bi, target))
+            if not todo:
+                continue
+            d = dict(f.d)
+            d["blocks"] = copy.deepcopy(f.blocks)
+            for bi, (kind, path) in todo:
+                t = d["blocks"][bi]["term"]
+                if kind == "fn":
+                    # spread the argument tuple
+                    tup = t["args"][1]
+                    ds = f.whole_defs(tup["place"]["local"]) if tup.get("k") in ("copy", "move") and not tup["place"]["proj"] else []
+                    if len(ds) != 1 or ds[0][0] != "stmt" or ds[0][1]["k"] != "aggregate" or ds[0][1]["kind"].get("agg") != "tuple":
+                        continue
+                    ctor = _variant_ctor(self.prog, (kind, path))
+                    if ctor is not None:
+                        # `wrap(x)` with wrap = RecordValue::Integer: the variant literal
+                        en, var, vidx, fields = ctor
+                        ops = list(ds[0][1]["ops"])
+                        d["blocks"][bi]["stmts"].append({"place": t["dest"], "rv": {"k": "aggregate", "kind": {"agg": "adt", "adt": en, "variant": var, "vidx": vidx, "fields": fields[:len(ops)]}, "ops": ops},
+                                                         "line": t.get("span", {}).get("l0", 0)})
+                        d["blocks"][bi]["term"] = {"k": "goto", "target": t["target"]}
+                        any_change = True
+                        continue
+                    t["args"] = list(ds[0][1]["ops"])
+                t["callee"] = {"path": path, "resolved": path, "is_resolved": True, "local": True, "crate": "", "args": [], "devirtualised": True}
+                any_change = True
+            nf = Fn(d, f.crate)
+            nf.program = self.prog
+            self.prog.fns[p] = nf
+        return any_change
+
+    def _rounds(self):
+        from mirlib import Fn
         for _ in range(MAX_ROUNDS):
             changed = False
             for p in sorted(self.prog.fns):
@@ -763,6 +1134,26 @@ class Inliner:
                     d2["blocks"] = copy.deepcopy(f.blocks)
                     d2["locals"] = list(f.locals)
                     if expand_consumers(self.prog, d2):
+                        f = Fn(d2, f.crate)
+                        f.program = self.prog
+                        self.prog.fns[p] = f
+                        self.expanded += 1
+                        changed = True
+                if self.expand and LOWER_NEXT and any(b["term"]["k"] == "call" and not b["cleanup"] and _callee(b["term"]).endswith("::extend") and not b.get("consumer_expanded") for b in f.blocks):
+                    d2 = dict(f.d)
+                    d2["blocks"] = copy.deepcopy(f.blocks)
+                    d2["locals"] = list(f.locals)
+                    if expand_extend(self.prog, d2):
+                        f = Fn(d2, f.crate)
+                        f.program = self.prog
+                        self.prog.fns[p] = f
+                        self.expanded += 1
+                        changed = True
+                if self.expand and LOWER_NEXT and any(b["term"]["k"] == "call" and not b["cleanup"] and _callee(b["term"]).endswith("::next") and not b.get("next_lowered") for b in f.blocks):
+                    d2 = dict(f.d)
+                    d2["blocks"] = copy.deepcopy(f.blocks)
+                    d2["locals"] = list(f.locals)
+                    if lower_lazy_next(self.prog, d2):
                         f = Fn(d2, f.crate)
                         f.program = self.prog
                         self.prog.fns[p] = f
@@ -786,6 +1177,9 @@ class Inliner:
                     changed = True
             if not changed:
                 break
+
+    def _finish(self):
+        from mirlib import Fn
         self._devirtualise()
         self.prog._cg = None
         self.prog._always_err = {}
